@@ -457,6 +457,59 @@ func c04(repo string, out *fg.Out) error {
 		}
 	}
 
+	// the column names an import STORES are exactly the names validateImportHeader CHECKED: after the call no
+	// statement assigns to `header`, `header[i]` or the loop variable `name` (no TrimSpace/ToLower/... in between)
+	namesAsValidated := true
+	for _, fnm := range []string{"importCSV", "importParquet"} {
+		hf, e := fg.ParseFile(repo, "internal/api/import_inprocess.go")
+		if e != nil {
+			return e
+		}
+		fd := hf.FuncDecl("ImportHandler", fnm)
+		if fd == nil || fd.Body == nil {
+			return fmt.Errorf("%s not found", fnm)
+		}
+		var vpos token.Pos
+		for _, c := range fg.CallsNamed(fd.Body, "validateImportHeader") {
+			vpos = c.Pos()
+		}
+		if vpos == token.NoPos {
+			return fmt.Errorf("%s no longer calls validateImportHeader", fnm)
+		}
+		stores := false
+		ast.Inspect(fd.Body, func(n ast.Node) bool {
+			as, ok := n.(*ast.AssignStmt)
+			if !ok || as.Pos() < vpos {
+				return true
+			}
+			for _, l := range as.Lhs {
+				switch x := l.(type) {
+				case *ast.Ident:
+					if (x.Name == "name" || x.Name == "header") && as.Tok == token.ASSIGN {
+						namesAsValidated = false
+					}
+				case *ast.IndexExpr:
+					if id, ok := x.X.(*ast.Ident); ok {
+						if id.Name == "header" {
+							namesAsValidated = false
+						}
+						if id.Name == "cols" {
+							if k, ok := x.Index.(*ast.Ident); ok && k.Name == "name" {
+								stores = true
+							} else if bl, ok := x.Index.(*ast.BasicLit); !ok || bl.Value != `"time"` {
+								namesAsValidated = false // cols[<some expression of the name>]
+							}
+						}
+					}
+				}
+			}
+			return true
+		})
+		if !stores {
+			return fmt.Errorf("%s: expected `cols[name] = …` after validateImportHeader", fnm)
+		}
+	}
+
 	// import handlers flush synchronously on the request goroutine
 	for _, s := range []site{{"internal/api/import_inprocess.go", "ImportHandler", "importCSV"}, {"internal/api/import_inprocess.go", "ImportHandler", "importParquet"},
 		{"internal/api/import.go", "ImportHandler", "handleLineProtocolImport"}, {"internal/api/import.go", "ImportHandler", "handleTLEImport"}} {
@@ -524,6 +577,7 @@ func c04(repo string, out *fg.Out) error {
 	fmt.Fprintf(w, "/-- handlers that call isValidDatabaseName before buffering -/\ndef dbValidatedAt : List String := [%s]\n", leanStrs(siteNames))
 	fmt.Fprintf(w, "/-- in every write/import handler all name validation is complete before the first record is handed to the buffer (no loop validates and writes) -/\ndef namesValidatedBeforeAnyWrite : Bool := %s\n", b(validationFirst))
 	fmt.Fprintf(w, "def validationFirstAt : List String := [%s]\n", leanStrs(vfSites))
+	fmt.Fprintf(w, "/-- importCSV / importParquet store every column under exactly the header name validateImportHeader checked (no assignment to header / header[i] / name after the call) -/\ndef importNamesStoredAsValidated : Bool := %s\n", b(namesAsValidated))
 	fmt.Fprintf(w, "def importRejectsEmptyName : Bool := %s\n", b(importRejectsEmpty))
 	fmt.Fprintf(w, "def extractMeasurementsSkipsEmpty : Bool := %s\n", b(emSkipsEmpty))
 	fmt.Fprintf(w, "/-- NewServer installs fiber's recover middleware -/\ndef handlerPanicsRecovered : Bool := %s\n", b(handlerRecover))
@@ -542,6 +596,7 @@ func c04(repo string, out *fg.Out) error {
 	out.JSON["env_header_cap"] = envCap
 	out.JSON["handler_panics_recovered"] = handlerRecover
 	out.JSON["write_atomic"] = writeAtomic
+	out.JSON["import_names_stored_as_validated"] = namesAsValidated
 	out.JSON["names_validated_before_any_write"] = validationFirst
 	return nil
 }
